@@ -87,7 +87,7 @@ template<class T> struct Driver {
   using TD = tdigest<T>;
   static const int NS = 3, NB = 4;
   vt::Rng& g;
-  int serde_pct; int hdr_pct = 70;
+  int serde_pct; int hdr_pct = 70; int bigk_pct = 0;
   std::unique_ptr<TD> sk[2 * NS];   // i + NS = the twin of i restored from an image of i
   Proj last[2 * NS];
   bool twin[NS] = {false, false, false};
@@ -117,6 +117,7 @@ template<class T> struct Driver {
   void mk(int i) {
     static const int KS[] = {10, 10, 10, 11, 12, 15, 20, 25, 30, 40};
     int k = KS[g.below(10)];
+    if ((int)g.below(100) < bigk_pct) k = (int[]){50, 64, 100, 200}[g.below(4)];   // thorough tier: capacities 110 .. 410
     sk[i].reset(new TD((uint16_t)k));
     last[i] = project(*sk[i]); tainted[i] = false; rst[i] = false; foreign[i] = false;
     if (i < NS) twin[i] = false;
@@ -520,6 +521,7 @@ int main(int argc, char** argv) {
   int serde_pct = (int)vt::argl(argc, argv, "--serde", 3);
   long trials = vt::argl(argc, argv, "--trials", 0);
   int hdr_pct = (int)vt::argl(argc, argv, "--hdr", 70);   // share of Ser events that request a header > 0
+  int bigk_pct = (int)vt::argl(argc, argv, "--bigk", 0);
   g_refdir = vt::arg(argc, argv, "--ref", "/repo/tdigest/test");
   vt::open_out(vt::arg(argc, argv, "--out", "/dev/stdout"));
   vt::Rng g(seed);
@@ -531,8 +533,8 @@ int main(int argc, char** argv) {
   } else {
     for (long seg = 0; seg < segments; seg++) {
       alarm(30);    // watchdog: a sketch that loops forever is a finding (the recorder dies by SIGALRM), not a hung check
-      if (g.chance(35)) { Driver<float> d(g, serde_pct); d.hdr_pct = hdr_pct; d.segment(seg, events); }
-      else { Driver<double> d(g, serde_pct); d.hdr_pct = hdr_pct; d.segment(seg, events); }
+      if (g.chance(35)) { Driver<float> d(g, serde_pct); d.hdr_pct = hdr_pct; d.bigk_pct = bigk_pct; d.segment(seg, events); }
+      else { Driver<double> d(g, serde_pct); d.hdr_pct = hdr_pct; d.bigk_pct = bigk_pct; d.segment(seg, events); }
     }
   }
   vt::close_out();
